@@ -10,6 +10,9 @@ CONSTANT Depth
 VARIABLE hist
 
 SimChanSeq == << "c1", "c2" >>
+\* page sizes 1 and 2 make the harness use 1024- and 512-row units (the code's install batch
+\* is 1024 rows); 4 = a whole log fits one batch
+SimCfgs == [kind : {"msg", "meta"}, api : {"reader", "bytes"}, ps : {1, 2, 4}]
 
 SimInit == Init /\ hist = << [ev |-> ev, st |-> Proj] >>
 Pick(S) == {RandomElement(S)}
@@ -58,6 +61,8 @@ TgtStep ==
   \/ Discard
   \/ (RandomElement(1..3) = 1 /\ Restart)
   \/ \E c \in Pick(Chans) : Touch(c)
+  \* aimed: warm a channel before anything was restored into it
+  \/ \E c \in Pick({c \in ExpChans : ~tMeta[c] /\ warm[c] = -1} \cup {"none"}) : c # "none" /\ Touch(c)
   \/ \E c \in Pick(Chans), k \in Pick(1..(MaxLen + 1)) : TgtAppend(c, k)
   \/ \E c \in Pick(Chans), k \in Pick(1..(MaxLen + 1)) : TgtAppend(c, k)
   \* aimed: the key of a restored row / of a row above the watermark
